@@ -160,6 +160,14 @@ def run(c):
         if "harness_err" in o:
             raise RuntimeError(o["harness_err"])
         ob = o["obs"]
+        if o.get("skipped_after_hangs"):
+            continue
+        if o.get("hang"):
+            hung = ob[-1]["op"] if ob else "?"
+            c.finding_or_violation({"kind": "open-batch", "what": "a call never returned (the environment is blocked from then on)", "call": hung,
+                                    "planted_kinds": sorted(set(meta["before"].values()))},
+                                   {"history": case["ops"][:len(ob)], "state": meta["before"], "items": meta["items"]}, klass="hang:" + hung)
+            continue
         it = iter(ob)
         o_reset, o_plant, o_open = next(it), next(it), next(it)
         if o_plant.get("exit") != 0 or o_plant.get("status") != 1:
@@ -251,17 +259,28 @@ def run(c):
                                        {"ops": case["ops"]})
     # ---- long histories of large batches (descriptor lifetime in init across garbage collections)
     rounds = 500 if c.quick() else 3000
-    so = c.run_harness(exe, [{"id": 0, "ops": [{"op": "reset"}, {"op": "openstress", "rounds": rounds, "n": 320}, {"op": "reset"}, {"op": "ping"}]}],
+    so = c.run_harness(exe, [{"id": 0, "ops": [{"op": "reset"}, {"op": "openstress", "rounds": rounds, "n": 250}, {"op": "reset"}, {"op": "ping"}]}],
                        env=env, timeout=1800)[0]["obs"]
     if so[1].get("hang"):
-        c.finding_or_violation({"kind": "open-batch-history", "what": "a batch never returned"}, {"history": "%d rounds of 320-item create + read-back batches on one environment" % rounds})
+        c.finding_or_violation({"kind": "open-batch-history", "what": "a batch never returned"}, {"history": "%d rounds of 250-item create + read-back batches on one environment" % rounds})
         so[1].update({"rounds_done": 0, "fail": "hang"})
         so += [{"err": "hang"}] * 3
     c.cov["stress_rounds"] = so[1]["rounds_done"]
     c.evaluations += so[1]["rounds_done"]
     if so[1]["fail"] or so[3]["err"]:
         c.finding_or_violation({"kind": "open-batch-history", "what": so[1]["fail"] or so[3]["err"]},
-                               {"history": "%d rounds of 320-item create + read-back batches on one environment" % rounds})
+                               {"history": "%d rounds of 250-item create + read-back batches on one environment" % rounds})
+    # ---- a batch with more succeeding items than one message can carry descriptors (SCM_MAX_FD = 253)
+    bo = c.run_harness(exe, [{"id": 0, "ops": [{"op": "newenv"}, {"op": "openstress", "rounds": 1, "n": 253}, {"op": "ping"}, {"op": "openstress", "rounds": 1, "n": 254}, {"op": "ping"},
+                                               {"op": "newenv"}]}], env=env, timeout=600)[0]["obs"]
+    c.count("batch-253-254", nontrivial=True, klass="batch:descriptor-limit")
+    if len(bo) < 5 or bo[1].get("fail") or bo[2].get("err"):
+        c.finding_or_violation({"kind": "open-batch-history", "what": "a batch of 253 items fails or leaves the environment unusable", "detail": str(bo[1:3])[:200]},
+                               {"history": "Open of 253 new files, then Ping", "observed": bo[1:3]})
+    elif bo[3].get("hang") or bo[3].get("fail") or (len(bo) > 4 and bo[4].get("err")):
+        c.finding_or_violation({"kind": "open-batch-big", "what": "a batch with more than 253 succeeding items fails as a whole and the environment is unusable afterwards",
+                                "items": 254, "environment_dead": bool(len(bo) > 4 and bo[4].get("err"))},
+                               {"history": "Open of 254 new files, then Ping", "observed": bo[3:5]})
     c.sample({"state": metas[0]["before"], "batch": metas[0]["items"], "observed": obs[0]["obs"][2].get("results")})
     body = HDR + "Definition cs := %s.\nDefinition M := Eval vm_compute in failing batch_ok cs.\nPrint M.\n" % coq_list(coq_items)
     for i in c.parse_nums(c.parse_printed(c.coq_eval("batch", body), "M").replace("%N", "")):
